@@ -59,7 +59,7 @@ def install(ctx, repo, probes):
         exact = integral and not (
             hform and ((dest[0] * 60 + dest[1]) - (key[5] * 60 + key[6])) % 60)
         prob = None
-        if type(q) is not TP or q._truncated:
+        if not isinstance(q, TP) or q._truncated:
             prob = "result is not a full TimePoint"
         elif (q._time_zone._hours, q._time_zone._minutes) != dest or \
                 q._time_zone._unknown:
